@@ -282,7 +282,8 @@ ssize_t _whawty_write_data(int sock, const void* data, size_t len, int timeout)
     }
 
     ssize_t nwritten = write(sock, (void*)(data + offset), len - offset);
-    if(nwritten < 0 || (nwritten == 0 && errno != EINTR)) {
+    if(nwritten <= 0) {
+      // errno is only meaningful if write() failed, a write of 0 bytes makes no progress either
       return offset;
     }
     offset += nwritten;
@@ -368,7 +369,9 @@ ssize_t _whawty_read_data(int sock, const void* data, size_t len, int timeout)
     }
 
     ssize_t nread = read(sock, (void*)(data + offset), len - offset);
-    if(nread < 0 || (nread == 0 && errno != EINTR)) {
+    if(nread <= 0) {
+      // nread == 0 means end of stream (the peer closed the connection), errno is only
+      // meaningful if read() failed - a stale EINTR must not make us spin here
       return offset;
     }
     offset += nread;
